@@ -3,7 +3,7 @@
    OCaml types; Z, N, positive and Flocq's binary_float stay Coq datatypes. *)
 From Coq Require Extraction.
 From Coq Require Import ExtrOcamlBasic.
-From F1 Require Import Base.Prelude Base.F64 Model.Verdict Model.Distribution Model.Staged Model.Jitter Model.Progress Model.TestingT.
+From F1 Require Import Base.Prelude Base.F64 Model.Verdict Model.Distribution Model.Staged Model.Jitter Model.Progress Model.TestingT Model.Metrics.
 
 Extraction Language OCaml.
 Extraction "model.ml"
@@ -14,4 +14,5 @@ Extraction "model.ml"
   staged_run staged_ok ramp_run_f64 ramp_ok interp_ok
   jit_run_f64 jit_ok
   stats_run stats0 c01_ok exec init terminal
-  worker_obs run_obs combine_obs.
+  worker_obs run_obs combine_obs
+  gather_obs.
